@@ -182,7 +182,8 @@ class Antisym:
                     return self.check(unblock(n["args"][0])["body"], sigma)
                 self.problems.append(("asymmetric-binding", A.show(n["recv"])[:80]))
                 return
-            if m in ("then", "then_with", "or", "or_else") and len(n["args"]) == 1:
+            if m in ("then", "then_with", "or", "or_else", "unwrap_or", "unwrap_or_else") and len(n["args"]) == 1:
+                # `X.unwrap_or_else(|| Y)`: X where it decides, else Y — antisymmetric when both are
                 self.check(n["recv"], sigma)
                 a = unblock(n["args"][0])
                 if a.get("e") == "closure":
@@ -256,6 +257,11 @@ class Antisym:
                 m = {}
                 m.update(side_names(p1, "L"))
                 m.update(side_names(p2, "R"))
+                if flip:
+                    # the mirrored arm is the arm for the exchanged operands: names of the whole operands
+                    # (self / other) used in its body are exchanged too
+                    for k_, v_ in sigma.items():
+                        m.setdefault(k_, v_)
                 ps = _pat_str(p1, m) + " , " + _pat_str(p2, m)
                 g = canon(rename(arm["guard"], m)) if arm.get("guard") is not None else ""
                 body = rename(arm["body"], m)
@@ -308,7 +314,7 @@ class Antisym:
                 return canon(a["recv"]) == canon(b["args"][0]) and canon(a["args"][0]) == canon(b["recv"])
             if a["m"] in ("unwrap",):
                 return self.reverse_equal(a["recv"], b["recv"])
-            if a["m"] in ("then", "then_with", "or", "or_else") and len(a["args"]) == 1:
+            if a["m"] in ("then", "then_with", "or", "or_else", "unwrap_or", "unwrap_or_else") and len(a["args"]) == 1:
                 x, y = unblock(a["args"][0]), unblock(b["args"][0])
                 if x.get("e") == "closure" and y.get("e") == "closure":
                     x, y = x["body"], y["body"]
